@@ -1,21 +1,25 @@
 """C05 - seeded calls are reproducible and never touch the global random stream.
 
 mc:       spec/RngDiscipline.tla (L1 machine: caller programs SeedGlobal / ForeignDraw /
-          CallSeeded / CallUnseeded over an abstract library).  MC_RngDiscipline_good: the
-          well-behaved abstract library satisfies every clause, the action properties and
-          refines Allowed; MC_RngDiscipline_matrix: eight abstract misbehaving libraries break
-          exactly the clauses they should (POSTCONDITION on the observed violation matrix).
-gen/run:  the caller programs enumerated by TLC (all renaming-canonical programs of length 3
-          [4 thorough] that end in a call, plus TLC -simulate samples of length 5) ARE the test
-          programs: each one is executed against every seed-accepting public routine of bctpy
-          (function token 1 = the routine, token 2 = a partner routine, argument tokens = two
-          small valid inputs, seed tokens = two concrete seeds); numpy's global generator
-          state, python's random state and the results are fingerprinted around every step.
-          One extra history per routine passes a RecordingRNG (evidence: which draws happen on
-          the private stream).
+          CallSeeded / CallUnseeded over an abstract library).  MC_RngDiscipline_good_*: the
+          well-behaved abstract library satisfies every clause, the action properties
+          [][CallSeeded => g'=g /\ py'=py], [][py'=py] and refines the step relation Allowed;
+          MC_RngDiscipline_matrix_*: eight abstract misbehaving libraries break exactly the
+          clauses they should (POSTCONDITION on the violation matrix TLC observed).
+gen/run:  the caller programs enumerated by TLC ARE the test programs: every renaming-canonical
+          program of length 3 that ends in a call, every program of length <= 5 whose last call
+          ReseedReproduces relates to an earlier one, TLC -simulate samples of length 5 (thorough:
+          also samples of the 20060 canonical programs of length 4).  Each one is executed against
+          every seed-accepting public routine of bctpy (function token 1 = the routine, token 2 =
+          a partner routine, argument tokens = two small valid inputs, seed tokens = two concrete
+          seeds); numpy's global generator state, python's random state and the results are
+          fingerprinted around every step.  One extra history per routine passes a RecordingRNG
+          (evidence: which draws happen on the private stream).
 validate: spec/Trace_RngDiscipline.tla steps every recorded history through the step relation
-          Allowed of RngDiscipline, one state per event, and names the failing clause.
+          Allowed of RngDiscipline, one state per event, and names the failing clause and the
+          function token whose call broke it.
 Python never compares results: it fingerprints (SHA-1) and interns fingerprints as small ints.
+Developer switches (never used by MANIFEST): VERIF_C05_ONLY=fn1,fn2 restricts the routines.
 """
 import hashlib
 import importlib
@@ -128,6 +132,13 @@ def _inputs():
         return A
     C8, C92, R8 = ring(8, 1, True), ring(9, 2, True), ring(8, 2, False)
     U9s = _und(9, 0.2, 30)
+    # sparse connected graphs: many swaps would disconnect them (rejection branch of *_connected)
+    T9 = np.zeros((9, 9))
+    for i, j in [(k, k + 1) for k in range(8)] + [(0, 4), (3, 8)]:
+        T9[i, j] = T9[j, i] = 1
+    TD9 = np.zeros((9, 9))
+    for i, j in [(k, (k + 1) % 9) for k in range(9)] + [(0, 4), (5, 2), (7, 3)]:
+        TD9[i, j] = 1
     ref, mod, cor, clu, phy, gen = ("bct.algorithms.reference", "bct.algorithms.modularity",
                                     "bct.algorithms.core", "bct.algorithms.clustering",
                                     "bct.algorithms.physical_connectivity", "bct.algorithms.generative")
@@ -138,8 +149,8 @@ def _inputs():
                        kwargs=[k1 or {}, k2 or {}], slow=slow, group=group)
 
     for nm, a1, a2 in [("randmio_und", (U10, 2), (Uw9, 3)), ("randmio_dir", (D8, 2), (Dw9, 3)),
-                       ("randmio_und_connected", (U10, 2), (Uw9, 2)),
-                       ("randmio_dir_connected", (D8, 2), (Dw9, 2)),
+                       ("randmio_und_connected", (U10, 2), (T9, 3)),
+                       ("randmio_dir_connected", (D8, 2), (TD9, 3)),
                        ("randmio_und_signed", (Su8, 1), (Su9, 2)),
                        ("randmio_dir_signed", (Sd8, 1), (Sd9, 1)),
                        ("randomize_graph_partial_und", (U10, B10, 3), (Uw9, B9, 4)),
@@ -149,8 +160,8 @@ def _inputs():
         add(nm, ref, a1, a2, group="rewiring")
     Dist9 = np.abs(np.arange(9)[:, None] - np.arange(9)[None, :]).astype(float) * 1.5 + 1    # explicit D
     for nm, a1, a2 in [("latmio_und", (U10, 2), (Uw9, 2)), ("latmio_dir", (D8, 2), (Dw9, 2)),
-                       ("latmio_und_connected", (U10, 2), (Uw9, 2)),
-                       ("latmio_dir_connected", (D8, 2), (Dw9, 2))]:
+                       ("latmio_und_connected", (T9, 3), (Uw9, 2)),
+                       ("latmio_dir_connected", (TD9, 3), (Dw9, 2))]:
         add(nm, ref, a1, a2, {}, dict(D=Dist9), group="latticiser")
     for nm, a1, a2 in [("makeevenCIJ", (16, 50, 2), (16, 44, 4)), ("makefractalCIJ", (3, 2.5, 1), (3, 2.0, 2)),
                        ("makerandCIJdegreesfixed", ([2, 1, 2, 1, 2, 2], [1, 2, 2, 2, 1, 2]),
@@ -190,8 +201,8 @@ def _inputs():
 EXCLUDED = {"bct.utils.miscellaneous_utilities.get_rng": "the mechanism itself (returns the generator)",
             "bct.algorithms.models.mleme_constraint_model": "not exported by bct; raises NotImplementedError"}
 FAST_PARTNERS = ["randmio_und", "modularity_louvain_und", "makerandCIJ_und", "core_periphery_dir",
-                 "randmio_dir_signed", "maketoeplitzCIJ", "modularity_probtune_und_sign",
-                 "randomizer_bin_und", "pick_four_unique_nodes_quickly", "generative_model"]
+                 "makerandCIJ_dir", "maketoeplitzCIJ", "modularity_probtune_und_sign",
+                 "randomizer_bin_und", "pick_four_unique_nodes_quickly", "rentian_scaling"]
 
 
 def discover():
@@ -402,8 +413,17 @@ def partner_of(name, k):
             return p
 
 
+EXOTIC_SEEDS = [2 ** 32 + 5, 2 ** 40, -3]     # RandomState rejects them: get_rng's fallback path
+
+
 def make_job(rng, name, k, program, kind="hist"):
     s = rng.sample(SEED_POOL + [rng.randrange(2 ** 32), rng.randrange(1000)], 2)
+    for t in (1, 2):
+        # a seed token that only ever appears as seed=<int> may be one that RandomState() itself rejects
+        uses = {st[3] if st[0] == "call" else st[0] for st in program if st[0] != "draw" and st[4] == t
+                and not (st[0] == "call" and st[3] == "none")}
+        if uses == {"int"} and rng.random() < 0.25:
+            s[t - 1] = rng.choice(EXOTIC_SEEDS)
     a1, a2 = [0, 1], [0, 1]
     rng.shuffle(a1)
     rng.shuffle(a2)
@@ -485,12 +505,12 @@ def describe(job, rec):
     for st, ev in zip(job["program"], rec.get("events", [])):
         op, fnt, at, sk, sv = st
         if op == "seed":
-            s = "np.random.seed(%d)" % job["seeds"][sv - 1]
+            s = "np.random.seed(%r)" % job["seeds"][sv - 1]
         elif op == "draw":
             s = "np.random.random_sample()" if sv == 1 else "np.random.standard_normal()"
         else:
-            sd = {"none": "", "int": ", seed=%d" % job["seeds"][sv - 1] if sk == "int" else "",
-                  "RandomState": ", seed=RandomState(%d)" % job["seeds"][sv - 1] if sk == "RandomState" else ""}[sk]
+            sd = {"none": "", "int": ", seed=%r" % job["seeds"][sv - 1] if sk == "int" else "",
+                  "RandomState": ", seed=RandomState(%r)" % job["seeds"][sv - 1] if sk == "RandomState" else ""}[sk]
             s = "%s(input%d%s)->r%d" % (names[fnt], job["amap"][str(fnt)][at - 1] + 1, sd, ev["res"])
         out.append("%s [g%d->g%d%s]" % (s, ev["gb"], ev["ga"], "" if ev["pb"] == ev["pa"] else " py%d->py%d" % (ev["pb"], ev["pa"])))
     return "; ".join(out) + ((" raised=" + str(rec.get("raised"))) if rec.get("raised") else "")
@@ -498,6 +518,17 @@ def describe(job, rec):
 
 def what(job, rec, clause):
     return "program: " + describe(job, rec)
+
+
+def attribute(recs, verdicts):
+    """TLC's verdict names the function token whose call broke the clause: book it to that routine"""
+    r2, v2 = [], []
+    for r, v in zip(recs, verdicts):
+        if v[2] == "fn2":
+            r = dict(r, fn=r["partner"], booked_from=r["fn"])
+        r2.append(r)
+        v2.append((v[0], v[1], "any"))
+    return r2, v2
 
 
 def check_env(verdicts, recs):
@@ -568,12 +599,14 @@ def run(ctx):
     recs = run_all(jobs)
     verdicts = validate_parallel(ctx, recs, "all")
     check_env(verdicts, recs)
-    ctx.judge(jobs, recs, verdicts, what=what)
+    ra, va = attribute(recs, verdicts)
+    ctx.judge(jobs, ra, va, what=what)
     # every clause a routine breaks: re-judge the recorded histories of the routines that failed,
     # one clause at a time (same observations, no new execution)
-    bad_fns = sorted({r["fn"] for r, v in zip(recs, verdicts)
+    bad_fns = sorted({r["fn"] for r, v in zip(ra, va)
                       if not r.get("timeout") and v[0] != "ok" and not v[0].startswith("skip:")})
-    sel = [(j, r) for j, r in zip(jobs, recs) if r.get("fn") in bad_fns and not r.get("timeout")]
+    sel = [(j, r) for j, r in zip(jobs, recs) if not r.get("timeout")
+           and (r.get("fn") in bad_fns or r.get("partner") in bad_fns)]
 
     def focus(c):
         j2 = [dict(j, focus=c) for j, _ in sel]
@@ -581,6 +614,7 @@ def run(ctx):
         return j2, r2, ctx.validate(TRACE[0], TRACE[1], r2, tag="focus_" + c, chunk=100000)
     if sel:
         for j2, r2, v2 in ctx.parallel([(lambda c=c: focus(c)) for c in CLAUSES], width=6):
+            r2, v2 = attribute(r2, v2)
             ctx.judge(j2, r2, v2, what=what)
     # ---- book-keeping for the evidence file (no judgement below) ----
     per_fn, nontriv, sens, streams, raised = {}, set(), {}, {}, {}
@@ -659,5 +693,6 @@ def replay(ctx, rp):
     core.log("replay verdict:", verdicts[0])
     core.log("  " + describe(job, recs[0]))
     check_env(verdicts, recs)
-    ctx.judge([job], recs, verdicts, what=what)
+    ra, va = attribute(recs, verdicts)
+    ctx.judge([job], ra, va, what=what)
     return ctx.finish()
